@@ -186,10 +186,14 @@ func (e *Executor) RunTask(ctx context.Context, call *Call) error {
 				method = t.Method
 			}
 
+			// Only look at the fingerprint here (dry): it is recorded once the
+			// commands have run successfully, so that an attempt that fails, is
+			// declined at the prompt, is cancelled or is killed never makes a
+			// later run skip the task
 			upToDate, err := fingerprint.IsTaskUpToDate(ctx, t,
 				fingerprint.WithMethod(method),
 				fingerprint.WithTempDir(e.TempDir.Fingerprint),
-				fingerprint.WithDry(e.Dry),
+				fingerprint.WithDry(true),
 				fingerprint.WithLogger(e.Logger),
 			)
 			if err != nil {
@@ -221,6 +225,10 @@ func (e *Executor) RunTask(ctx context.Context, call *Call) error {
 		}
 
 		var deferredExitCode uint8
+		fingerprintState, err := e.statusBeforeRun(t)
+		if err != nil {
+			return err
+		}
 
 		for i := range t.Cmds {
 			if t.Cmds[i].Defer {
@@ -248,6 +256,9 @@ func (e *Executor) RunTask(ctx context.Context, call *Call) error {
 
 				return &errors.TaskRunError{TaskName: t.Task, Err: err}
 			}
+		}
+		if err := e.statusOnSuccess(fingerprintState); err != nil {
+			e.Logger.VerboseErrf(logger.Yellow, "task: error recording status on success: %v\n", err)
 		}
 		e.Logger.VerboseErrf(logger.Magenta, "task: %q finished\n", call.Task)
 		return nil
